@@ -134,3 +134,12 @@ Theorem accumulated_follow_table_is_followpos :
   forall n o p q, (o <= p < o + size n)%nat -> (In q (table_at (entries o n) p) <-> In q (follow o n p)).
 Proof. exact (proj1 accumulated_table_is_follow). Qed.
 Print Assumptions accumulated_follow_table_is_followpos.
+
+(* nullable is what it is meant to be, for every tree: true exactly when the tree's language has the empty string *)
+Theorem nullable_iff_the_empty_string_is_matched : forall n, Followpos.nullable n = true <-> lang n [].
+Proof.
+  intros n. rewrite (proj1 lang_first n 0%nat []). split.
+  - intros H. left. split; [reflexivity | exact H].
+  - intros [[_ H]|[p [v [_ [E _]]]]]; [exact H | discriminate].
+Qed.
+Print Assumptions nullable_iff_the_empty_string_is_matched.
